@@ -57,6 +57,14 @@ theorem iter_none (C : Consts) (hstep : 0 < C.step) (sizes : Nat → Nat) (s : S
             split at h
             · simp at h
             · split at h <;> simp at h
+          | unser ow =>
+            cases ow with
+            | false => simp at h
+            | true =>
+              simp only [] at h
+              split at h
+              · simp at h
+              · split at h <;> simp at h
           | fail ow =>
             simp only [] at h
             split at h
@@ -176,6 +184,14 @@ theorem iter_rotation (C : Consts) (sizes : Nat → Nat) (s s' : S) (hq : s.list
           split at h
           · simp only [Option.some.injEq] at h; rw [← h]
           · split at h <;> (simp only [Option.some.injEq] at h; rw [← h])
+        | unser ow =>
+          cases ow with
+          | false => simp only [Option.some.injEq] at h; rw [← h]
+          | true =>
+            simp only [] at h
+            split at h
+            · simp only [Option.some.injEq] at h; rw [← h]
+            · split at h <;> (simp only [Option.some.injEq] at h; rw [← h])
         | fail ow =>
           simp only [] at h
           split at h
@@ -265,6 +281,14 @@ theorem iter_streams_others_untouched (C : Consts) (sizes : Nat → Nat) (s s' :
             split at h
             · simp only [Option.some.injEq] at h; rw [← h]; exact hp
             · split at h <;> (simp only [Option.some.injEq] at h; rw [← h]; exact hp)
+          | unser ow =>
+            cases ow with
+            | false => simp only [Option.some.injEq] at h; rw [← h]; exact hp
+            | true =>
+              simp only [] at h
+              split at h
+              · simp only [Option.some.injEq] at h; rw [← h]; exact hp
+              · split at h <;> (simp only [Option.some.injEq] at h; rw [← h]; exact hp)
           | fail ow =>
             simp only [] at h
             split at h
